@@ -2,6 +2,7 @@ package props
 
 import (
 	"bytes"
+	"context"
 	stdjson "encoding/json"
 	"fmt"
 	"reflect"
@@ -172,6 +173,7 @@ func c15Keys(c *work.Ctx) {
 		if !c.BeginS("names " + strings.Join(shape, ",")) {
 			continue
 		}
+		c15Prologue()
 		// keys: all short keys, plus extensions and prefixes of the field names, plus very long names
 		ks := append([]string(nil), keys...)
 		for _, n := range shape {
@@ -331,6 +333,7 @@ func c15Embedded(c *work.Ctx) {
 				if !c.BeginS(t.Name() + " <- " + doc) {
 					continue
 				}
+				c15Prologue()
 				for mode := 0; mode < 2; mode++ {
 					dec := func(std bool) (string, error) {
 						p := reflect.New(t)
@@ -397,4 +400,15 @@ func fillInts(v reflect.Value, n int) int {
 		}
 	}
 	return n
+}
+
+// c15Prologue: the rules of C15 hold whatever the process did before. Before every case the pooled decoding
+// state serves one call with the first-win option (the only option that changes which duplicate wins), one
+// call that fails inside an object, and one call with a context: a call without options must not inherit them.
+func c15Prologue() {
+	var v struct{ A, B int }
+	_ = json.UnmarshalWithOption([]byte(`{"A":1,"A":2,"B":3,"B":4}`), &v, json.DecodeFieldPriorityFirstWin())
+	_ = json.Unmarshal([]byte(`{"A":1,"B":`), &v)
+	_ = json.UnmarshalContext(context.Background(), []byte(`{"a":5}`), &v)
+	_ = json.NewDecoder(strings.NewReader(`{"A":1,"A":2}`)).DecodeWithOption(&v, json.DecodeFieldPriorityFirstWin())
 }
